@@ -1,6 +1,7 @@
 package main
 
 import (
+	"go/types"
 	"runtime/debug"
 	"encoding/json"
 	"flag"
@@ -106,6 +107,12 @@ func main() {
 		return defaultTransparent[path]
 	}
 
+	pkgInfo := map[*types.Package]*packages.Package{}
+	packages.Visit(pkgs, nil, func(p *packages.Package) {
+		if p.Types != nil {
+			pkgInfo[p.Types] = p
+		}
+	})
 	var results []*Result
 	var eng *Engine
 	for _, h := range harnesses {
@@ -114,7 +121,7 @@ func main() {
 			fatal("harness %s not found in %s", h, target.Pkg.Path())
 		}
 		if eng == nil {
-			eng = &Engine{prog: prog, maxSteps: *maxSteps, maxLoop: *maxLoop, transparent: transparent, solverBin: *solver,
+			eng = &Engine{prog: prog, pkgInfo: pkgInfo, maxSteps: *maxSteps, maxLoop: *maxLoop, transparent: transparent, solverBin: *solver,
 			timeoutMs: *timeout, incTimeoutMs: *incTimeout, portfolio: *portfolio, crossCheck: *cross, workers: *workers, maxPaths: *maxPaths, wantWitness: *witness, maxBigBytes: *maxBig}
 		}
 		res := eng.Explore(fn)
